@@ -412,6 +412,7 @@ package rux
 //@   ensures s == uf("trimspace.l", string, s) ++ r ++ uf("trimspace.r", string, s)
 //@   ensures allspace(uf("trimspace.l", string, s)) && allspace(uf("trimspace.r", string, s))
 //@   ensures r == "" || (!isspace(at(r, 0)) && !isspace(at(r, len(r) - 1)))
+//@   ensures isMethod(s) ==> r == s
 //@ extern strings.TrimRight(s, cutset) (r)
 //@   requires len(cutset) == 1
 //@   pure
@@ -449,9 +450,12 @@ package rux
 //@ extern strings.ToUpper(s) (r)
 //@   pure
 //@   ensures r == uf("upper", string, s) && len(r) == len(s)
+//@   ensures isMethod(s) ==> r == s
 //@ extern strings.ToLower(s) (r)
 //@   pure
 //@   ensures r == uf("lower", string, s) && len(r) == len(s)
+//@   ensures (s == "Index" ==> r == "index") && (s == "Create" ==> r == "create") && (s == "Store" ==> r == "store") && (s == "Show" ==> r == "show")
+//@       && (s == "Edit" ==> r == "edit") && (s == "Update" ==> r == "update") && (s == "Delete" ==> r == "delete")
 
 // ---------------------------------------------------------------------------
 // Path normalisation (C11, C13)
@@ -558,7 +562,7 @@ package rux
 //@       && (forall i int :: 0 <= i && i < entry(len(r.currentGroupHandlers)) ==> r.currentGroupHandlers[i] == entry(r.currentGroupHandlers[i]))
 //@       && (forall i int :: 0 <= i && i < len(middles) ==> r.currentGroupHandlers[entry(len(r.currentGroupHandlers)) + i] == middles[i])
 //@   modifies r.currentGroupHandlers, allelems([]HandlerFunc), allelems([]*Route), allelems([]string), allfields(Route), r.counter, r.cachedRoutes
-//@   modifies entries(r.stableRoutes), entries(r.regularRoutes), entries(r.irregularRoutes), entries(r.namedRoutes)
+//@   modifies entries(r.stableRoutes), entries(r.regularRoutes), entries(r.irregularRoutes), entries(r.namedRoutes), regCount(r), regAt(r, _)
 //@   panics *
 //@   ensures r.handlers == old(r.handlers)
 //@   ensures forall a ref, j int :: allocated(a) && !(a == old(arr(r.currentGroupHandlers)) && j >= old(off(r.currentGroupHandlers) + len(r.currentGroupHandlers)))
@@ -568,7 +572,7 @@ package rux
 //@ func (*Router).Group [C12, C04]
 //@   requires lists_not_aliased: disjointHF(middles, r.currentGroupHandlers) && disjointHF(r.handlers, r.currentGroupHandlers) && disjointHF(r.handlers, middles)
 //@   modifies r.currentGroupPrefix, r.currentGroupHandlers, allelems([]HandlerFunc), allelems([]*Route), allelems([]string), allfields(Route), r.counter, r.cachedRoutes
-//@   modifies entries(r.stableRoutes), entries(r.regularRoutes), entries(r.irregularRoutes), entries(r.namedRoutes)
+//@   modifies entries(r.stableRoutes), entries(r.regularRoutes), entries(r.irregularRoutes), entries(r.namedRoutes), regCount(r), regAt(r, _)
 //@   panics *
 //@   ensures prefix_restored: r.currentGroupPrefix == old(r.currentGroupPrefix)
 //@   ensures group_middleware_restored: r.currentGroupHandlers == old(r.currentGroupHandlers)
@@ -580,6 +584,10 @@ package rux
 //
 // isReg(rt): rt was accepted by appendRoute of some router. regIdx(rt): its registration stamp.
 //@ ghost isReg(ref) bool
+// regCount(r) / regAt(r, i): the log of routes accepted by appendRoute of router r, in order.
+//@ ghost regCount(ref) int
+//@ ghost regAt(ref, int) ref
+//@ spec fullPath(r *Router, p string) string = r.currentGroupPrefix == "" ? fp(p, r.strictLastSlash) : fp(r.currentGroupPrefix + fp(p, r.strictLastSlash), r.strictLastSlash)
 //@ ghost regIdx(ref) int
 // lastRoute(r) / lastAlm(r): the result of the most recent QuickMatch on r (specification device that lets
 // the dispatcher's postcondition name the route it dispatched to). hookCalls(c): OnPanic invocations for c.
@@ -1029,7 +1037,17 @@ package rux
 //@   panics *
 //@   modifies route.handlers, route.path, route.regex, route.matches, route.spath, route.start, elems(route.matches), allelems([]*Route)
 //@   modifies r.counter, entries(r.namedRoutes), entries(r.stableRoutes), entries(r.regularRoutes), entries(r.irregularRoutes), isReg(route), firstSeg(route)
+//@   modifies regCount(r), regAt(r, _)
 //@   ghostset isReg(route) = true
+//@   ghostset regAt(r, old(regCount(r))) = route
+//@   ghostset regCount(r) = old(regCount(r)) + 1
+//@   ensures[C16] logged: regCount(r) == old(regCount(r)) + 1 && regAt(r, old(regCount(r))) == route
+//@       && (forall i int :: i != old(regCount(r)) ==> regAt(r, i) == old(regAt(r, i)))
+//@   ensures[C16, C11] path_with_prefix: route.path == fullPath(r, old(route.path))
+//@   ensures[C16, C12] group_middleware_then_own: (len(r.currentGroupHandlers) == 0 ==> route.handlers == old(route.handlers))
+//@       && (len(r.currentGroupHandlers) > 0 ==> fresh(arr(route.handlers)) && len(route.handlers) == len(r.currentGroupHandlers) + old(len(route.handlers))
+//@           && (forall i int :: 0 <= i && i < len(r.currentGroupHandlers) ==> route.handlers[i] == r.currentGroupHandlers[i])
+//@           && (forall i int :: 0 <= i && i < old(len(route.handlers)) ==> route.handlers[len(r.currentGroupHandlers) + i] == old(route.handlers[i])))
 //@   ensures[C13] accepted_is_valid: route.handler != nil && len(route.methods) > 0 && len(route.handlers) < 63
 //@       && (forall i int :: 0 <= i && i < len(route.methods) ==> isMethod(route.methods[i]))
 //@   ensures[C13, C02] dynamic_is_well_formed: !fixedPath(route.path) ==> routeWF(route)
@@ -1089,16 +1107,28 @@ package rux
 //@   panics *
 //@   modifies route.handlers, route.path, route.regex, route.matches, route.spath, route.start, elems(route.matches), allelems([]*Route)
 //@   modifies r.counter, entries(r.namedRoutes), entries(r.stableRoutes), entries(r.regularRoutes), entries(r.irregularRoutes), isReg(route), firstSeg(route)
-//@   modifies r.cachedRoutes, lmem(_, _), lclock(_), ln(_), guard(_)
+//@   modifies r.cachedRoutes, lmem(_, _), lclock(_), ln(_), guard(_), regCount(r), regAt(r, _)
 //@   ensures wf: tablesWF(r) && tablesSep(r) && noCacheEntries(r) && result == route
+//@   ensures[C16] logged: regCount(r) == old(regCount(r)) + 1 && regAt(r, old(regCount(r))) == route
+//@       && (forall i int :: i != old(regCount(r)) ==> regAt(r, i) == old(regAt(r, i)))
+//@   ensures[C16, C15] named: route.name != "" ==> route.name in r.namedRoutes && r.namedRoutes[route.name] == route
+//@   ensures[C16, C15] other_names_kept: forall n string :: n != route.name ==> (n in r.namedRoutes) == old(n in r.namedRoutes) && r.namedRoutes[n] == old(r.namedRoutes[n])
+//@   ensures[C16, C11] path_with_prefix: route.path == fullPath(r, old(route.path))
+//@   ensures[C16, C12] group_middleware_then_own: (len(r.currentGroupHandlers) == 0 ==> route.handlers == old(route.handlers))
+//@       && (len(r.currentGroupHandlers) > 0 ==> fresh(arr(route.handlers)) && len(route.handlers) == len(r.currentGroupHandlers) + old(len(route.handlers))
+//@           && (forall i int :: 0 <= i && i < len(r.currentGroupHandlers) ==> route.handlers[i] == r.currentGroupHandlers[i])
+//@           && (forall i int :: 0 <= i && i < old(len(route.handlers)) ==> route.handlers[len(r.currentGroupHandlers) + i] == old(route.handlers[i])))
 //@   ensures[C14] cache_created_with_capacity: r.enableCaching && old(r.cachedRoutes) == nil ==> r.cachedRoutes != nil && r.cachedRoutes.size == r.maxNumCaches
 //@   ensures[C14] existing_cache_kept: old(r.cachedRoutes) != nil ==> r.cachedRoutes == old(r.cachedRoutes)
 //
 //@ func NewRoute [C11, C13]
 //@   ensures fresh_route: result != nil && fresh(result) && result.path == sfp(path) && result.handler == handler && len(result.handlers) == 0 && result.name == ""
-//@ func NewNamedRoute [C11, C15]
+//@ func NewNamedRoute [C11, C15, C16]
 //@   ensures fresh_route: result != nil && fresh(result) && result.path == sfp(path) && result.handler == handler && len(result.handlers) == 0
 //@       && result.name == uf("trimspace", string, name)
+//@   ensures[C16] nothing_else_set: arr(result.matches) == nil && arr(result.handlers) == nil
+//@   ensures[C16] methods_kept_in_order: len(methods) > 0 && allMethods(methods) ==> len(result.methods) == len(methods)
+//@       && (forall j int :: 0 <= j && j < len(methods) ==> result.methods[j] == methods[j])
 //
 //@ func (*Router).GetRoute [C15]
 //@   ensures result == r.namedRoutes[name]
@@ -1109,11 +1139,14 @@ package rux
 //@   ensures other_names_kept: forall n string :: n != uf("trimspace", string, name) ==> (n in router.namedRoutes) == old(n in router.namedRoutes) && router.namedRoutes[n] == old(router.namedRoutes[n])
 //@   ensures blank_name_ignored: uf("trimspace", string, name) == "" ==> r.name == old(r.name)
 
-//@ func formatMethods [C13]
+//@ spec allMethods(ms []string) bool = forall j int :: 0 <= j && j < len(ms) ==> isMethod(ms[j])
+//@ func formatMethods [C13, C16]
 //@   ensures len(formatted) <= len(methods) && (len(formatted) > 0 ==> fresh(arr(formatted)))
+//@   ensures[C16] method_names_kept_in_order: allMethods(methods) ==> len(formatted) == len(methods) && (forall j int :: 0 <= j && j < len(methods) ==> formatted[j] == methods[j])
 //@ loop formatMethods #0
 //@   vars rangeindex, formatted
 //@   invariant -1 <= rangeindex && rangeindex + 1 <= len(methods) && len(formatted) <= rangeindex + 1 && (arr(formatted) == nil || fresh(arr(formatted)))
+//@   invariant allMethods(methods) ==> len(formatted) == rangeindex + 1 && (forall j int :: 0 <= j && j <= rangeindex ==> formatted[j] == methods[j])
 
 // ---------------------------------------------------------------------------
 // Response helpers of Context (C19, on top of the writer contracts of C08)
@@ -1320,3 +1353,130 @@ package rux
 //@   ensures delegates_to_the_file_server: served(fsHandler) == old(served(fsHandler)) + 1 && servedReq(fsHandler) == c.Req && servedW(fsHandler) == refof(c.Resp)
 //@   ensures path_is_the_matched_file_param: c.Req.URL.Path == old(c.Params["file"])
 //@   ensures no_direct_file_access: fileServes(refof(c.Resp)) == old(fileServes(refof(c.Resp)))
+
+// ---------------------------------------------------------------------------
+// Resource (C16). reflect is modelled as uninterpreted functions of the identity of a reflect.Value
+// (rvid: its three words): the method set of the controller is whatever reflect says it is; what is
+// proved is that registration follows it and the action table, for every method set.
+//@ spec rvid(v reflect.Value) ref = uf("rv.id", ref, v.typ_, v.ptr, v.flag)
+//@ extern reflect.ValueOf(i) (v)
+//@   pure
+//@   ensures rvid(v) == uf("rv.of", ref, i)
+//@ extern (reflect.Value).MethodByName(v, name) (m)
+//@   pure
+//@   ensures rvid(m) == uf("rv.method", ref, rvid(v), name)
+//@ extern (reflect.Value).IsValid(v) (b)
+//@   pure
+//@   ensures b == uf("rv.valid", bool, rvid(v))
+//@ extern (reflect.Value).Interface(v) (i)
+//@   pure
+//@   requires uf("rv.valid", bool, rvid(v))
+//@   ensures i == uf("rv.iface", any, rvid(v))
+//@ extern (reflect.Value).Kind(v) (k)
+//@   pure
+//@   ensures k == uf("rv.kind", int, rvid(v))
+//@ extern (reflect.Value).Elem(v) (e)
+//@   pure
+//@   requires uf("rv.kind", int, rvid(v)) == 22 || uf("rv.kind", int, rvid(v)) == 20
+//@   ensures rvid(e) == uf("rv.elem", ref, rvid(v))
+//@ extern (reflect.Value).Type(v) (t)
+//@   pure
+//@   panics *
+//@   ensures t != nil && t == uf("rv.type", any, rvid(v))
+//@ extern (reflect.Type).Kind(self) (k)
+//@   pure
+//@   ensures k == uf("rt.kind", int, self)
+//@ extern (reflect.Type).Elem(self) (e)
+//@   pure
+//@   panics *
+//@   ensures e != nil && e == uf("rt.elem", any, self)
+//@ extern (reflect.Type).Name(self) (s)
+//@   pure
+//@   ensures s == uf("rt.name", string, self)
+//
+//@ func (*Router).Resource [C16]
+//@   requires lists_not_aliased: disjointHF(middles, r.currentGroupHandlers) && disjointHF(r.handlers, r.currentGroupHandlers) && disjointHF(r.handlers, middles)
+//@   modifies r.currentGroupPrefix, r.currentGroupHandlers, allelems([]HandlerFunc), allelems([]*Route), allelems([]string), allfields(Route), r.counter, r.cachedRoutes
+//@   modifies entries(r.stableRoutes), entries(r.regularRoutes), entries(r.irregularRoutes), entries(r.namedRoutes), regCount(r), regAt(r, _)
+//@   panics *
+//@   ensures accepted_is_pointer_to_struct: uf("rv.kind", int, uf("rv.of", ref, controller)) == 22
+//@       && uf("rt.kind", int, uf("rv.type", any, uf("rv.elem", ref, uf("rv.of", ref, controller)))) == 25
+//@   ensures prefix_restored: r.currentGroupPrefix == old(r.currentGroupPrefix)
+// Uses() of the controller (user code, rely): returns the per-action middleware table and leaves the router alone.
+//@ functype (*Router).Resource:call#0(self) (m)
+//@   panics *
+//@   ensures true
+
+// AddNamed: one route is created, logged and indexed under its name; its path, chain and methods are
+// functions of the arguments and of the group context in effect.
+//@ func (*Router).AddNamed [C16, C15]
+//@   requires tablesWF(r) && tablesSep(r) && noCacheEntries(r) && methodsTable() && varRegex != nil
+//@   panics *
+//@   modifies allelems([]*Route), r.counter, entries(r.namedRoutes), entries(r.stableRoutes), entries(r.regularRoutes), entries(r.irregularRoutes), isReg(_), firstSeg(_)
+//@   modifies r.cachedRoutes, lmem(_, _), lclock(_), ln(_), guard(_), regCount(r), regAt(r, _)
+//@   ensures wf: tablesWF(r) && tablesSep(r) && noCacheEntries(r) && result != nil && fresh(result)
+//@   ensures logged: regCount(r) == old(regCount(r)) + 1 && regAt(r, old(regCount(r))) == result
+//@       && (forall i int :: i != old(regCount(r)) ==> regAt(r, i) == old(regAt(r, i)))
+//@   ensures the_route: result.name == uf("trimspace", string, name) && result.handler == handler && result.path == fullPath(r, sfp(path))
+//@   ensures named: result.name != "" ==> result.name in r.namedRoutes && r.namedRoutes[result.name] == result
+//@   ensures other_names_kept: forall n string :: n != result.name ==> (n in r.namedRoutes) == old(n in r.namedRoutes) && r.namedRoutes[n] == old(r.namedRoutes[n])
+//@   ensures methods_kept_in_order: len(methods) > 0 && allMethods(methods) ==> len(result.methods) == len(methods)
+//@       && (forall j int :: 0 <= j && j < len(methods) ==> result.methods[j] == methods[j])
+//@   ensures only_group_middleware: len(result.handlers) == len(r.currentGroupHandlers)
+//@       && (forall i int :: 0 <= i && i < len(r.currentGroupHandlers) ==> result.handlers[i] == r.currentGroupHandlers[i])
+//@       && (arr(result.handlers) == nil || fresh(arr(result.handlers)))
+
+// The registration callback of Resource. cv: reflect.Value of the controller; resName: its lower-cased
+// type name; handlerFuncs: the table returned by Uses() (empty without Uses).
+//@ spec isAction(a string) bool = a == "Index" || a == "Create" || a == "Store" || a == "Show" || a == "Edit" || a == "Update" || a == "Delete"
+//@ spec row1(a string, m string) bool = len(RESTFulActions[a]) == 1 && RESTFulActions[a][0] == m
+//@ spec restTable() bool = RESTFulActions != nil && IndexAction == "Index" && CreateAction == "Create" && StoreAction == "Store" && ShowAction == "Show"
+//@     && EditAction == "Edit" && UpdateAction == "Update" && DeleteAction == "Delete"
+//@     && (forall a string :: (a in RESTFulActions) == isAction(a))
+//@     && row1("Index", "GET") && row1("Create", "GET") && row1("Store", "POST") && row1("Show", "GET") && row1("Edit", "GET") && row1("Delete", "DELETE")
+//@     && len(RESTFulActions["Update"]) == 2 && RESTFulActions["Update"][0] == "PUT" && RESTFulActions["Update"][1] == "PATCH"
+//@ spec mref(cv reflect.Value, a string) ref = uf("rv.method", ref, rvid(cv), a)
+//@ spec impl(cv reflect.Value, a string) bool = uf("rv.valid", bool, mref(cv, a)) && hastype(uf("rv.iface", any, mref(cv, a)), func(*Context))
+//@ spec shape(a string) string = (a == "Index" || a == "Store") ? "/" : (a == "Create" ? "/create/" : (a == "Edit" ? "{id}/edit/" : "{id}/"))
+//
+//@ spec nm(res string, a string) string = uf("trimspace", string, res + "_" + uf("lower", string, a))
+//@ spec actOf(res string, n string) string = n == nm(res, "Index") ? "Index" : (n == nm(res, "Create") ? "Create" : (n == nm(res, "Store") ? "Store"
+//@     : (n == nm(res, "Show") ? "Show" : (n == nm(res, "Edit") ? "Edit" : (n == nm(res, "Update") ? "Update" : (n == nm(res, "Delete") ? "Delete" : ""))))))
+//@ spec namesOK(res string) bool = (forall a1 string, a2 string :: isAction(a1) && isAction(a2) && a1 != a2 ==> nm(res, a1) != nm(res, a2))
+//@     && (forall a string :: isAction(a) ==> nm(res, a) != "")
+//@ spec usesOK(r *Router, hf map[string][]HandlerFunc, rt *Route, a string) bool =
+//@     (a in hf ==> len(rt.handlers) == len(r.currentGroupHandlers) + len(hf[a])
+//@         && (forall i int :: 0 <= i && i < len(hf[a]) ==> rt.handlers[len(r.currentGroupHandlers) + i] == hf[a][i]))
+//@     && (!(a in hf) ==> len(rt.handlers) == len(r.currentGroupHandlers))
+//@     && (forall i int :: 0 <= i && i < len(r.currentGroupHandlers) ==> rt.handlers[i] == r.currentGroupHandlers[i])
+//@ spec argsOK(r *Router, cv reflect.Value, rt *Route, a string) bool = rt != nil
+//@     && rt.handler == cast(uf("rv.iface", any, mref(cv, a)), HandlerFunc) && rt.path == fullPath(r, sfp(shape(a)))
+//@ spec methodsOK(rt *Route, a string) bool = len(rt.methods) == len(RESTFulActions[a]) && (forall j int :: 0 <= j && j < len(rt.methods) ==> rt.methods[j] == RESTFulActions[a][j])
+//@ spec tripleOK(r *Router, cv reflect.Value, hf map[string][]HandlerFunc, rt *Route, a string) bool = argsOK(r, cv, rt, a) && methodsOK(rt, a) && usesOK(r, hf, rt, a)
+//@ spec entryOK(r *Router, cv reflect.Value, res string, rt *Route) bool = rt != nil && isAction(actOf(res, rt.name)) && impl(cv, actOf(res, rt.name))
+//@     && rt.name == nm(res, actOf(res, rt.name)) && rt.name in r.namedRoutes && r.namedRoutes[rt.name] == rt
+//
+//@ lemma shapes: [C16] "/" + "create" + "/" == "/create/" && "{id}/" + "edit" + "/" == "{id}/edit/"
+//@ func (*Router).Resource$1 [C16]
+//@   nomerge
+//@   uses shapes
+//@   requires r != nil && tablesWF(r) && tablesSep(r) && noCacheEntries(r) && methodsTable() && varRegex != nil && restTable()
+//@   requires names_ok: namesOK(resName)
+//@   panics *
+//@   modifies allelems([]*Route), allelems([]HandlerFunc), allfields(Route), r.counter, entries(r.namedRoutes), entries(r.stableRoutes), entries(r.regularRoutes), entries(r.irregularRoutes), isReg(_), firstSeg(_)
+//@   modifies r.cachedRoutes, lmem(_, _), lclock(_), ln(_), guard(_), regCount(r), regAt(r, _)
+//@   ensures wf: tablesWF(r) && tablesSep(r) && noCacheEntries(r)
+//@   ensures every_implemented_action_has_its_documented_route: forall a string :: isAction(a) && impl(cv, a) ==> nm(resName, a) in r.namedRoutes
+//@       && tripleOK(r, cv, handlerFuncs, r.namedRoutes[nm(resName, a)], a)
+//@   ensures and_nothing_else: forall e int :: old(regCount(r)) <= e && e < regCount(r) ==> entryOK(r, cv, resName, cast(regAt(r, e), *Route))
+//@   ensures earlier_registrations_kept: forall e int :: e < old(regCount(r)) ==> regAt(r, e) == old(regAt(r, e))
+//@ loop (*Router).Resource$1 #0
+//@   invariant 0 <= iterpos && iterpos <= itercard && tablesWF(r) && tablesSep(r) && noCacheEntries(r) && restTable() && regCount(r) >= old(regCount(r))
+//@   invariant forall a string :: iterdom(a) == isAction(a)
+//@   invariant forall a string :: iterdom(a) && iterord(a) < iterpos && impl(cv, a) ==> nm(resName, a) in r.namedRoutes
+//@       && argsOK(r, cv, r.namedRoutes[nm(resName, a)], a)
+//@   invariant forall a string :: iterdom(a) && iterord(a) < iterpos && impl(cv, a) ==> methodsOK(r.namedRoutes[nm(resName, a)], a)
+//@   invariant forall a string :: iterdom(a) && iterord(a) < iterpos && impl(cv, a) ==> usesOK(r, handlerFuncs, r.namedRoutes[nm(resName, a)], a)
+//@   invariant forall e int :: old(regCount(r)) <= e && e < regCount(r) ==> entryOK(r, cv, resName, cast(regAt(r, e), *Route))
+//@       && iterord(actOf(resName, cast(regAt(r, e), *Route).name)) < iterpos
+//@   invariant forall e int :: e < old(regCount(r)) ==> regAt(r, e) == old(regAt(r, e))
